@@ -9,7 +9,7 @@ _BEH_RE = re.compile(r'<<\s*"BEH",\s*"((?:[^"\\]|\\.)*)"\s*>>', re.S)
 
 
 def behaviours(module, constants, simulate=None, depth=None, seed=0, timeout=400, invariant='Emit',
-               constraint=None, run=None, limit=None):
+               constraint=None, run=None, limit=None, cfg_extra=''):
     """Run Gen_* module; return list of behaviours (parsed JSON values).
 
     constants: dict name -> literal.  simulate: number of random walks
@@ -18,7 +18,7 @@ def behaviours(module, constants, simulate=None, depth=None, seed=0, timeout=400
     cfg = 'SPECIFICATION Spec\nCHECK_DEADLOCK FALSE\nINVARIANT %s\n' % invariant
     if constraint:
         cfg += 'CONSTRAINT %s\n' % constraint
-    cfg += 'CONSTANTS\n' + ''.join('  %s = %s\n' % kv for kv in constants.items())
+    cfg += 'CONSTANTS\n' + ''.join('  %s = %s\n' % kv for kv in constants.items()) + cfg_extra
     extra = []
     if simulate:
         extra = ['-simulate', 'num=%d' % simulate, '-depth', str(depth), '-seed', str(seed)]
